@@ -250,6 +250,25 @@ class ReplacementPatternFunction:
             )
         if not isinstance(new_outputs, Sequence):
             new_outputs = [new_outputs]
+        # A replacement output that is a value bound by the pattern (as in `lambda op, x: x`)
+        # cannot always take over the name and the role of the matched output: a graph input or
+        # initializer would be renamed, a graph output would be listed twice, and a value of an
+        # enclosing graph cannot be the output of a subgraph. Return such values through an
+        # Identity node.
+        matched_graph = match.nodes[0].graph if match.nodes else None
+
+        def needs_identity(value: ir.Value) -> bool:
+            producer = value.producer()
+            if producer is None or value.is_graph_output():
+                return True
+            return producer.graph is not None and producer.graph is not matched_graph
+
+        new_outputs = [
+            context.Identity(value)
+            if isinstance(value, ir.Value) and needs_identity(value)
+            else value
+            for value in new_outputs
+        ]
         return ReplacementSubgraph(
             match, new_outputs, context.nodes, context.initializers, context.used_opsets
         )
